@@ -23,6 +23,7 @@ import (
 	"sort"
 	"strings"
 	"sync"
+	"syscall"
 	"time"
 
 	"github.com/caddyserver/certmagic"
@@ -54,12 +55,20 @@ type c08Kill struct {
 	At  time.Duration `json:"at_ns"`
 }
 
+// c08Signal suspends (SIGSTOP) or resumes (SIGCONT) a child process.
+type c08Signal struct {
+	Pid  int           `json:"pid"`
+	At   time.Duration `json:"at_ns"`
+	Cont bool          `json:"cont,omitempty"`
+}
+
 type c08Scenario struct {
 	Name    string        `json:"name"`
 	Class   string        `json:"class"`
 	Pre     c08PreFile    `json:"pre"`
 	Threads []c08Thread   `json:"threads"`
 	Kills   []c08Kill     `json:"kills,omitempty"`
+	Signals []c08Signal   `json:"signals,omitempty"`
 	Horizon time.Duration `json:"horizon_ns"`
 	// Gap > 0: the child processes run under `strace -e inject=ftruncate:delay_exit=Gap`, i.e. on
 	// storage so slow that a heartbeat leaves the lock file empty for Gap between truncate and write
@@ -136,6 +145,7 @@ type c08Result struct {
 	Base     time.Time
 	Obs      map[int]*c08ThreadObs
 	KillAt   map[int]int64 // pid -> measured
+	SigAt    []int64       // measured instants of Sc.Signals (0 = not delivered)
 	PreAbs   [2]int64      // created, updated relative to base (ns), for meta files
 	Skipped  string
 	Early    bool
@@ -330,13 +340,45 @@ func c08Run(tmproot string, sc c08Scenario) (*c08Result, error) {
 			}
 		}()
 	}
+	res.SigAt = make([]int64, len(sc.Signals))
+	for i, sg := range sc.Signals {
+		i, sg := i, sg
+		wg.Add(1)
+		go func() {
+			defer wg.Done()
+			select {
+			case <-time.After(time.Until(base.Add(sg.At))):
+			case <-endCtx.Done():
+				return
+			}
+			if c := cmds[sg.Pid]; c != nil {
+				sig := syscall.SIGSTOP
+				if sg.Cont {
+					sig = syscall.SIGCONT
+				}
+				t := time.Now()
+				c.Process.Signal(sig)
+				mu.Lock()
+				res.SigAt[i] = rel(t)
+				if res.SigAt[i] == 0 {
+					res.SigAt[i] = 1
+				}
+				mu.Unlock()
+			}
+		}()
+	}
 	// the scenario ends at the horizon, or earlier once every thread has returned and every
-	// planned unlock / kill has happened
+	// planned unlock / kill / signal has happened
 	deadline := base.Add(sc.Horizon)
 	for time.Now().Before(deadline) {
 		time.Sleep(20 * time.Millisecond)
 		mu.Lock()
 		done := len(res.KillAt) == len(sc.Kills)
+		for _, t := range res.SigAt {
+			if t == 0 {
+				done = false
+			}
+		}
 		for _, th := range sc.Threads {
 			o := res.Obs[th.Tid]
 			if !o.returned {
@@ -440,6 +482,15 @@ func c08Emit(w *emit.Writer, res *c08Result) {
 		for pid, t := range res.KillAt {
 			if pids[pid] && t <= hz {
 				evs = append(evs, ev{t, 2, pid, 0})
+			}
+		}
+		for i, sg := range sc.Signals {
+			if t := res.SigAt[i]; pids[sg.Pid] && t != 0 && t <= hz {
+				k := 4
+				if sg.Cont {
+					k = 5
+				}
+				evs = append(evs, ev{t, k, sg.Pid, 0})
 			}
 		}
 		sort.SliceStable(evs, func(i, j int) bool { return evs[i].T < evs[j].T })
@@ -656,6 +707,12 @@ func c08Scenarios(tier string, r *rand.Rand) []c08Scenario {
 				{Tid: 6, Name: "issue_cert_example.com", StartAt: c08ms(400), HoldFor: c08ms(200), CancelAt: long},
 				{Tid: 7, Name: "issue_cert_example.co", StartAt: c08ms(450), HoldFor: c08ms(1000)}},
 			Horizon: c08ms(4500)},
+		// a live holder that is not scheduled for 11 s (SIGSTOP ... SIGCONT; a paused VM, a long stall)
+		// cannot refresh its lock file: the waiter takes the lock while the holder still holds it
+		// (known finding C08-suspended-holder; H-live is the hypothesis it violates)
+		{Name: "suspended-holder", Class: "suspended-holder",
+			Threads: []c08Thread{{Tid: 0, Pid: 1, Name: n, StartAt: c08ms(200), HoldFor: c08ms(14000)}, {Tid: 1, Name: n, StartAt: c08ms(700), HoldFor: c08ms(500), CancelAt: long}},
+			Signals: []c08Signal{{Pid: 1, At: c08ms(1000)}, {Pid: 1, At: c08ms(12000), Cont: true}}, Horizon: c08ms(16000)},
 		{Name: "three-processes", Class: "multi-process",
 			Threads: []c08Thread{{Tid: 0, Pid: 1, Name: n, StartAt: c08ms(150), HoldFor: c08ms(600)}, {Tid: 1, Pid: 2, Name: n, StartAt: c08ms(350), HoldFor: c08ms(600), CancelAt: long},
 				{Tid: 2, Pid: 3, Name: n, StartAt: c08ms(550), HoldFor: c08ms(600), CancelAt: long}},
